@@ -15,7 +15,8 @@ import tempfile
 
 VERIF = os.path.dirname(os.path.dirname(os.path.dirname(os.path.abspath(__file__))))
 REPO = os.environ.get("VERIF_REPO", "/repo")
-LEAN = os.path.join(VERIF, "lean")
+# VERIF_LEAN: a frozen copy of the Lean project (sources + build) for scratch runs while lean/ is being edited
+LEAN = os.environ.get("VERIF_LEAN") or os.path.join(VERIF, "lean")
 HARNESS = os.path.join(VERIF, "harness")
 # VERIF_EVIDENCE redirects the evidence / replay files of a run (used by tools/seeded.py when it runs the checks
 # against scratch worktrees in parallel, so that those runs never overwrite the evidence of /repo itself)
